@@ -651,6 +651,8 @@ def recode(fn, ovld, recurse_sym, call_next_sym, newname):
     # Not the bare name: a parameter or a local may be called "type"
     new_fn.__globals__["__TYPE"] = type
     new_fn.__globals__[ovld_mangled] = ovld.dispatch
-    new_fn.__globals__[map_mangled] = ovld.map
+    # The map itself is published under map_mangled by Ovld._compile, once
+    # it is complete: methods of the previous build may still be running.
+    new_fn.__globals__.setdefault(map_mangled, ovld.map)
     new_fn.__globals__[code_mangled] = new_fn.__code__
     return new_fn
